@@ -52,7 +52,7 @@ CHECKS = {
                      "the order in which members run their monitor rounds is whatever the timers give (sampled, not owned)",
                      "kubernetesStatefulSet (reads os.Hostname) and the Kubernetes lease itself are not reachable offline; only the numbering logic downstream of them is exercised"],
         units=[rapid("TestC10_Couchbase", 1, 1, 4, 8), rapid("TestC10_Leader", 1, 1, 2, 8), rapid("TestC10_Relay", 300, 20000, 1, 4)],
-        min_share=dict(any={"leader_rpc_failure": ["leader_cases", 0.05], "leader_follower_restart": ["leader_cases", 0.04]}),
+        min_share=dict(any={"leader_rpc_failure": ["leader_cases", 0.02], "leader_follower_restart": ["leader_cases", 0.015]}),
     ),
     "C20": dict(
         level="fault_enumeration",
@@ -114,7 +114,7 @@ CHECKS = {
         assumptions=["Layer-A fakes are the trusted base; the Couchbase-backend 'checkpoint cannot be loaded' path is exercised in C20 on the simulated node",
                      "bounded retries on re-open use the library's hard-coded 1 s sleep (one class, few cases)"],
         units=[rapid("TestC15_FailFast", 1, 1, 4, 16)],
-        min_share=dict(any={"control_group_started": ["cases", 0.08], "end_during_open_reopened": ["cases", 0.03]}),
+        min_share=dict(any={"control_group_started": ["cases", 0.05], "end_during_open_reopened": ["cases", 0.01]}),
     ),
     "C19": dict(
         level="fault_enumeration",
@@ -192,7 +192,7 @@ CHECKS = {
         assumptions=HIST_ASSUME + ["acknowledgements of one vBucket are issued one at a time (stated by the property)",
                                    "acks fired while the stream is closed inside a rebalance: only 'no crash' is asserted (assigned range undefined there)"],
         units=[rapid("TestC04_History", 5000, 300000), rapid("TestC04_Concurrent", 2000, 100000)],
-        min_share=dict(any={"ack_below_position": ["histories", 0.3], "ack_out_of_range": ["histories", 0.1], "ack_old_in_range": ["histories", 0.1]}),
+        min_share=dict(any={"ack_below_position": ["histories", 0.3], "ack_out_of_range": ["histories", 0.1], "ack_old_in_range": ["histories", 0.06]}),
     ),
     "C05": dict(
         level="fault_enumeration",
@@ -317,8 +317,8 @@ CHECKS = {
             fuzz("FuzzC18Parse", 60),
             rapid("TestC18_WireGates", 480, 40000, 8, 16),
         ],
-        min_share=dict(any={"wire_serial_close": ["wire_cases", 0.03], "wire_parallel_close": ["wire_cases", 0.08],
-                            "wire_change_streams_on": ["wire_cases", 0.06], "wire_expiry_off": ["wire_cases", 0.15]}),
+        min_share=dict(any={"wire_serial_close": ["wire_cases", 0.015], "wire_parallel_close": ["wire_cases", 0.08],
+                            "wire_change_streams_on": ["wire_cases", 0.04], "wire_expiry_off": ["wire_cases", 0.15]}),
     ),
     "C07": dict(
         level="exploration",
@@ -342,7 +342,7 @@ CHECKS = {
         units=[enum("TestC07_MinRuleExhaustive", 8, 16), rapid("TestC07_MinRuleRapid", 20000, 2000000), rapid("TestC07_Gate", 600, 40000, 8, 16),
                rapid("TestC07_Integration", 48, 3000, 8, 16, shrinktime="20s")],
         min_share=dict(any={"event_had_to_wait": ["gate_cases", 0.3], "closed_mid_run": ["gate_cases", 0.1],
-                            "replica_moved_with_active_report": ["integration_cases", 0.04], "config_bump": ["integration_cases", 0.1]}),
+                            "replica_moved_with_active_report": ["integration_cases", 0.02], "config_bump": ["integration_cases", 0.04]}),
     ),
     "C08": dict(
         level="exploration",
@@ -378,7 +378,7 @@ CHECKS = {
             rapid("TestC09_LeaderGroup", 1, 1, 2, 8),
             rapid("TestC09_CouchbaseGroup", 1, 1, 2, 8),
         ],
-        min_share=dict(any={"renumbered_same_group_size": ["discovery_histories", 0.3]}),
+        min_share=dict(any={"renumbered_same_group_size": ["discovery_histories", 0.2]}),
     ),
 }
 
